@@ -14,11 +14,9 @@ PROP = {
         "requests are sent by a hand-written Connect-protocol client (harness/eng_access.go) so that arbitrary header combinations can be presented",
     ],
     "level_text": "Lean: frame theorem for the model's request execution over every store and request (a request resolves to one project; every other project is unchanged; the decision depends on that project's state only), decision table total over the procedure list re-extracted from api/yorkie/v1/v1connect on every run, guard obligations over the call lists re-extracted from server/rpc/*_server.go and the interceptors, foreign-denied / no-credential-denied / existence-hidden over the whole request matrix by kernel evaluation. Tie: the same matrix (every procedure x credential kind x target kind x UseDefaultProject on/off) sent to a real in-process server with two projects using identical keys, decision compared line by line with the model and the victim projects' memdb state compared byte-wise before/after every request.",
-    "level_note": "Full statements are false of the code at two lookups by bare session id (YorkieService/DetachChannel, RefreshChannel): proved with the explicit side condition and witnesses; the implementation agrees with the faithful model on them (known finding). A third one (GetRevision by bare revision id) was repaired by /repo ddb0dfd3; the model follows the repaired handler, getRevision_fixed_witness documents the old variant. Error *texts* are not modelled (oracle only).",
+    "level_note": "The full statements hold of the current tree. They were false of the pinned tree at three lookups by bare id (YorkieService/GetRevision; DetachChannel, RefreshChannel), found by this check and repaired in /repo (ddb0dfd3, 3821028d); the model follows the repaired handlers, getRevision_fixed_witness / sessionScope_fixed_witness document the old variants. Error *texts* are not modelled (oracle only; one listed finding).",
     "technique": "Lean 4 proof (frame theorem + kernel-evaluated decision matrix over T-gen tables) + exhaustive differential replay against a real server",
-    "partial": [
-        "foreign_denied / existence_hidden / victim_unchanged / guards_present_yorkie carry the side condition `not a lookup by bare id`; witnesses: foreign_denied_witness, frame_witness, guards_present_yorkie_witness",
-    ],
+    "partial": [],
     "not_modelled": [
         "text of error messages (the oracle compares them between a foreign id and a nowhere-existing id; differences are the listed finding c13-error-message-discloses)",
         "auth webhook (`auth.VerifyAccess` is a no-op without a configured webhook; its presence in every handler is a T-gen obligation only)",
